@@ -23,7 +23,7 @@ ASSUMPTIONS = [
 ]
 MIN_DECIDING = {"fault_command_pairs": 500, "faults_injected": 60}
 
-EDITS = ["flip0", "fliplast", "fliprand", "insert", "delete", "trunc0", "trunchalf", "appendnl", "remove"]
+EDITS = ["flip0", "fliplast", "fliprand", "insert", "delete", "trunc0", "trunchalf", "appendnl", "remove", "rollback"]
 CMDS = ["create", "create-sf", "verify", "verify-dh", "diff", "info", "info-sf", "flatten"]
 
 
@@ -106,7 +106,15 @@ def run_case(cs):
             os.remove(p)
             want = 32 if name == "ascmhl_chain.xml" else 33
         else:
-            new = _edit(rng, orig, kind)
+            if kind == "rollback":
+                # overwritten with the exact bytes of another generation that the same chain lists
+                others = [n2 for n2 in world.manifests(root, h) if n2 != name]
+                if not others:
+                    continue
+                with open(os.path.join(hist.asc_dir(root, h), rng.choice(others)), "rb") as f2:
+                    new = f2.read()
+            else:
+                new = _edit(rng, orig, kind)
             if new == orig:
                 continue
             with open(p, "wb") as f:
